@@ -19,6 +19,7 @@ EXPLANATION = (
     "and the centre window reads x[i + j - h]; (D4) the frequency-domain smoother pads lpad samples on both sides and removes exactly those: "
     "output length == input length. The numerical clauses (identity at full rank, noise reduction, polynomial reproduction, constants unchanged) "
     "are NOT decided."
+    ' (as built) the chunk indices run from (at most) the chunk of the first spike to the chunk of the last spike: range(A, B) with B == max // C + 1 and A in {0, min // C}.'
 )
 ASSUMPTIONS = [
     "np.searchsorted(a, [lo, hi]) (side='left') on ascending spike samples returns the half-open range of samples in [lo, hi)",
